@@ -32,43 +32,12 @@ Theorem C03_trexp_so3_in_SO3 : forall (w : V3 R) (Rm : M33 R),
 Proof. intros w Rm. apply trexp_so3_in_SO3. exact C03_thr_ok. Qed.
 Print Assumptions C03_trexp_so3_in_SO3.
 
-(* full statement, STILL FALSE of the faithful model at one point:   forall w, exists Rm, trexp_so3 w = Ok Rm
-   rodrigues tests iszerovec (norm < k_zero eps) and unitvec_norm normalises only for norm > k_unit eps.  Before fix d900630
-   (k_unit = 100, k_zero = 10) the whole band 10 eps <= |w| <= 100 eps raised TypeError; now k_unit = k_zero, the band has
-   shrunk to the single value |w| = k_unit eps (strict comparisons on both sides).  The witness below is valid for both. *)
-Theorem C03_trexp_so3_total_refuted : exists w : V3 R, trexp_so3 Rops C03_thr w = TypeErr.
-Proof.
-  exists (thv Rops (k_unit C03_thr), 0, 0). unfold trexp_so3, rodrigues3, iszerovec3, unitvec_norm3.
-  assert (P : 0 <= thv Rops (k_unit C03_thr)) by (unfold thv, C03_thr; cbn; lra).
-  assert (E : norm3 Rops (thv Rops (k_unit C03_thr), 0, 0) = thv Rops (k_unit C03_thr)).
-  { set (x := thv Rops (k_unit C03_thr)) in *. autounfold with smlin. sm_simpl. replace (_ + _ + _) with (x * x) by ring.
-    apply sqrt_square. exact P. }
-  rewrite E. cbn [ltb Rops].
-  replace (Rltb _ (thv Rops (k_zero C03_thr))) with false by (symmetry; apply Rltb_false; unfold thv, C03_thr; cbn; lra).
-  replace (Rltb _ _) with false by (symmetry; apply Rltb_false; lra). reflexivity.
-Qed.
-Print Assumptions C03_trexp_so3_total_refuted.
-Theorem C03_trexp_so3_total_partial : forall w : V3 R,
-  thv Rops (k_unit C03_thr) < norm3 Rops w -> exists Rm, trexp_so3 Rops C03_thr w = Ok Rm /\ SO3 Rm.
-Proof.
-  intros w H. assert (exists Rm, trexp_so3 Rops C03_thr w = Ok Rm) as [Rm E].
-  { unfold trexp_so3, rodrigues3. destruct (iszerovec3 _ _ _); [eexists; reflexivity|].
-    unfold unitvec_norm3. cbv zeta. cbn [ltb Rops]. apply Rltb_true in H. rewrite H.
-    destruct w as [[w0 w1] w2]. eexists; reflexivity. }
-  exists Rm. split; [exact E | exact (C03_trexp_so3_in_SO3 _ _ E)].
-Qed.
-Print Assumptions C03_trexp_so3_total_partial.
-
-(* totality everywhere except on the sphere |w| = k_unit eps (uses k_zero = k_unit of the regenerated thresholds) *)
-Theorem C03_trexp_so3_total_off_threshold : forall w : V3 R,
-  norm3 Rops w <> thv Rops (k_unit C03_thr) -> exists Rm, trexp_so3 Rops C03_thr w = Ok Rm /\ SO3 Rm.
-Proof.
-  intros w H. destruct (Rlt_dec (norm3 Rops w) (thv Rops (k_zero C03_thr))) as [Z|NZ].
-  - exists (I33 Rops). split; [|apply SO3_I]. unfold trexp_so3, rodrigues3, iszerovec3. cbn [ltb Rops].
-    apply Rltb_true in Z. rewrite Z. reflexivity.
-  - apply C03_trexp_so3_total_partial. assert (thv Rops (k_zero C03_thr) = thv Rops (k_unit C03_thr)) by reflexivity. lra.
-Qed.
-Print Assumptions C03_trexp_so3_total_off_threshold.
+(* the FULL statement (it was `_refuted` + `_partial` until fixes d900630 / 4dbd011: rodrigues tested iszerovec with
+   norm < 10 eps but unitvec_norm normalised only norm > 100 eps, then > 10 eps; now unitvec_norm tests norm >= k_unit eps
+   with k_unit = k_zero, the exact complement of the zero test): the exponential of EVERY so(3) vector is a rotation matrix *)
+Theorem C03_trexp_so3_total : forall w : V3 R, exists Rm, trexp_so3 Rops C03_thr w = Ok Rm /\ SO3 Rm.
+Proof. intros w. apply trexp_so3_total; [exact C03_thr_ok | unfold C03_thr; cbn; lra]. Qed.
+Print Assumptions C03_trexp_so3_total.
 
 (* ---- (1) one-parameter-subgroup law of trexp on a unit twist: rotation block and translation block V(theta) ---- *)
 Theorem C03_trexp_is_expm_partial : forall (tw : V6 R) (a b : R),
